@@ -158,6 +158,26 @@ func gen(c *common.Ctx, emit func(...string)) {
 			emit("fmt", strconv.Itoa([]int{0, 40}[(i+k)%2]), common.Hex(doc))
 		}
 	}
+	// raw inline HTML that spans lines, with a continuation line that looks
+	// like the start of another block (the continuation is indented by four
+	// columns in the source, so it is paragraph text there)
+	for i, start := range []string{">", "> c", "- y", "+ y", "* y", "# y", "1. y", "2) y", "===", "---", "~~~", "```", "<div>", "_ _ _", "y"} {
+		for k, form := range []string{"<b\n%s>", "<b title=\"x\n%s\">", "<b title='x\n%s z'>", "<!-- x\n%s -->", "<?x\n%s ?>", "<b\nclass=x\n%s>"} {
+			for j, wrap := range []string{"a %s c", "> a %s c", "- a %s c", "1. > a %s c"} {
+				indent := "    "
+				switch j {
+				case 1:
+					indent = ">     "
+				case 2:
+					indent = "      "
+				case 3:
+					indent = "   >     "
+				}
+				tag := strings.ReplaceAll(fmt.Sprintf(form, start), "\n", "\n"+indent)
+				emit("fmt", strconv.Itoa([]int{0, 0, 30}[(i+k+j)%3]), common.Hex(fmt.Sprintf(wrap, tag)))
+			}
+		}
+	}
 	// autolinks: URI schemes (mailto: among them, which the formatter also
 	// meets as the destination of an e-mail autolink) with text that contains
 	// character-reference lookalikes and characters the formatter escapes
